@@ -69,6 +69,7 @@ fn check_install(g: &PatchGuard, src_off: usize, jit_off: Option<usize>, jit_add
             (!(changed || in_entry) || flushed_with_final_content(i)) => "OBL:C17.install: every written byte is covered by a flush issued after its last write",
             (os::EV_KIND[0] == 4) => "OBL:C01.order.alloc-first: the trampoline is obtained before the function is touched",
             (in_arena && os::writable(base + src_off, n)) => "OBL:C01.page.cover: every byte of the entry patch lies in pages made R|W|X by a successful mprotect",
+            (!os::FLUSH_UNPROT) => "OBL:C01.page.before-write: every range that was written (and flushed) was writable at that moment",
         }
     }
 }
@@ -86,6 +87,7 @@ fn check_drop(src_off: usize, jit_off: Option<usize>, jit_len: usize, n: usize) 
             (os::N_MUNMAP == 1 && !os::BAD_MUNMAP && os::live_count() == 0) => "OBL:C12.release: the trampoline mapping is released exactly once, with exactly its address and length",
             (in_jit || os::MEM[i] == SNAPSHOT[i]) => "OBL:C02.restore: after drop every byte outside the released trampoline is what it was before installation",
             (!in_range(i, src_off, n) || flushed_with_final_content(i)) => "OBL:C17.drop: restored bytes are covered by a flush issued after the restoring write",
+            (!os::FLUSH_UNPROT) => "OBL:C02.restore.writable: the restoring write goes to pages that are writable at that moment",
             (os::N_FLUSH >= 1 && os::FLUSH_START[last] <= os::mem_base() + src_off && os::FLUSH_END[last] >= os::mem_base() + src_off + n) => "OBL:C17.drop.last: the final event of restoration is a flush covering the restored range",
         }
     }
@@ -98,6 +100,7 @@ fn check_drop(src_off: usize, jit_off: Option<usize>, jit_len: usize, n: usize) 
 #[kani::stub(crate::injector_core::common::allocate_jit_memory, allocate_jit_memory_contract)]
 fn lifecycle_near() {
     fresh_world();
+    any_page_size();
     unsafe {
         os::SNAP_ON = true;
     }
@@ -135,6 +138,7 @@ fn lifecycle_near() {
 #[kani::stub(crate::injector_core::common::allocate_jit_memory, allocate_jit_memory_contract)]
 fn lifecycle_bool() {
     fresh_world();
+    any_page_size();
     unsafe {
         os::SNAP_ON = true;
     }
@@ -180,6 +184,7 @@ fn far_alloc(_src: &FuncPtrInternal, code_size: usize) -> *mut u8 {
 #[kani::stub(crate::injector_core::common::allocate_jit_memory, far_alloc)]
 fn lifecycle_far() {
     fresh_world();
+    any_page_size();
     unsafe {
         os::SNAP_ON = true;
     }
